@@ -5,6 +5,8 @@ pub mod dummy_proof;
 pub mod pool;
 pub mod private_batch;
 pub mod public_batch;
+#[cfg(quantus_network_qp_zk_circuits_verif)]
+pub mod verif_hooks;
 
 #[cfg(feature = "profile")]
 pub mod profile;
